@@ -348,6 +348,9 @@ type c11OrmCase struct {
 	IterFault  int  `json:"iter_fault"`
 	CloseFault bool `json:"close_fault,omitempty"`
 	PrepFault  bool `json:"prep_fault,omitempty"` // path stmt: the driver's Prepare fails
+	// Prefill: the destination slice of a multi-row query already holds that many elements
+	// before the call (a paging loop that keeps appending into one slice)
+	Prefill int `json:"prefill,omitempty"`
 	// BadRow >= 0: the value of column BadCol in that row is text that cannot be converted
 	// into the (numeric) field it lands in
 	BadRow int `json:"bad_row"`
@@ -449,6 +452,9 @@ func c11GenOrmCase(r *rand.Rand) c11OrmCase {
 	c.Ctx = r.Intn(2) == 0
 	c.Path = []string{"conn", "conn", "tx", "stmt", "sqlc", "tx", "stmt", "rawtx", "sqlc-cached", "sqlc-index", "txstmt", "txstmt"}[r.Intn(12)]
 	c.BadRow = -1
+	if c.Method == "rows" && r.Intn(3) == 0 {
+		c.Prefill = 1 + r.Intn(3)
+	}
 	c.Arg = r.Intn(2) == 0
 	nrows := 0
 	switch x := r.Intn(20); {
@@ -757,6 +763,7 @@ func c11CheckStruct(c *c11OrmCase, leaves []c11Leaf, sv reflect.Value, row []c11
 }
 
 type c11OrmStats struct {
+	prefilled    bool
 	fields, rows int
 	class        string
 }
@@ -787,6 +794,13 @@ func c11RunOrm(m *vk.M, idx int, c *c11OrmCase) (st c11OrmStats) {
 		dest = reflect.New(reflect.SliceOf(reflect.PointerTo(elemT)))
 	} else {
 		dest = reflect.New(reflect.SliceOf(elemT))
+	}
+	for i := 0; c.Method == "rows" && i < c.Prefill; i++ {
+		el := reflect.New(elemT) // earlier page: zero-valued elements
+		if !c.ElemPtr {
+			el = el.Elem()
+		}
+		dest.Elem().Set(reflect.Append(dest.Elem(), el))
 	}
 	// scripted result
 	rec := c11NewRec()
@@ -888,8 +902,12 @@ func c11RunOrm(m *vk.M, idx int, c *c11OrmCase) (st c11OrmStats) {
 			case panicked:
 				what = "panic"
 			case qerr == nil:
-				what = fmt.Sprintf("nil-with-%d-of-%d-rows", dest.Elem().Len(), nrows)
-				if dest.Elem().Len() < nrows {
+				got := dest.Elem().Len()
+				if got >= c.Prefill+0 && got > nrows {
+					got -= c.Prefill
+				}
+				what = fmt.Sprintf("nil-with-%d-of-%d-rows", got, nrows)
+				if got < nrows {
 					what = "nil-truncated-slice"
 				}
 			}
@@ -1022,12 +1040,18 @@ func c11RunOrm(m *vk.M, idx int, c *c11OrmCase) (st c11OrmStats) {
 		return
 	}
 	sl := dest.Elem()
-	if sl.Len() != nrows {
-		violate("row-count", "result has %d rows, destination slice has %d elements", nrows, sl.Len())
+	// a destination that already held elements may be appended to or replaced: the rows of
+	// this result are the last nrows elements either way
+	if sl.Len() != nrows && sl.Len() != c.Prefill+nrows {
+		violate("row-count", "result has %d rows, destination slice (%d elements before the call) has %d elements", nrows, c.Prefill, sl.Len())
 		return
 	}
+	off := sl.Len() - nrows
+	if c.Prefill > 0 {
+		st.prefilled = true
+	}
 	for i := 0; i < nrows; i++ {
-		ev := sl.Index(i)
+		ev := sl.Index(off + i)
 		if c.ElemPtr {
 			if ev.IsNil() {
 				violate("wrong-value", "row %d: nil element pointer", i)
@@ -1061,7 +1085,7 @@ func c11RunOrm(m *vk.M, idx int, c *c11OrmCase) (st c11OrmStats) {
 
 // TestVerifC11Orm: seeded destination shapes x result sets.
 func TestVerifC11Orm(t *testing.T) {
-	m := vk.New(t, "C11", "seeded cases: destination {fully db-tagged struct, untagged struct incl. embedded structs/pointers up to depth 2, primitive} built with reflect.StructOf over 27 field kinds (ints, uints, floats, string, bool, []byte, time.Time, sql.Null*, pointers) x {QueryRow, QueryRows into []T / []*T} x {strict, Partial} x {plain, Ctx} x {connection, transaction session, prepared statement, sqlc NoCache} x result set {0, 1, 2-5 rows; columns permuted, dropped, unknown extras; NULLs; native and text encodings; driver.Rows.Next failing at row k; Rows.Close failing}; oracle: a single-row query whose first-row fetch failed returns an error that is not ErrNotFound; every field equals the value of its column (by tag name / by position), fields without a column stay zero, empty single-row result => ErrNotFound, strict with fewer columns than fields => error; non-trivial = a verdict was drawn from a non-empty result or an error path")
+	m := vk.New(t, "C11", "seeded cases: destination {fully db-tagged struct, untagged struct incl. embedded structs/pointers up to depth 2, primitive} built with reflect.StructOf over 27 field kinds (ints, uints, floats, string, bool, []byte, time.Time, sql.Null*, pointers) x {QueryRow, QueryRows into []T / []*T} x {strict, Partial} x {plain, Ctx} x {connection, transaction session, prepared statement, sqlc NoCache} x destination slice {empty, already holding 1-3 elements} x result set {0, 1, 2-5 rows; columns permuted, dropped, unknown extras; NULLs; native and text encodings; driver.Rows.Next failing at row k; Rows.Close failing}; oracle: a single-row query whose first-row fetch failed returns an error that is not ErrNotFound; every field equals the value of its column (by tag name / by position), fields without a column stay zero, empty single-row result => ErrNotFound, strict with fewer columns than fields => error; non-trivial = a verdict was drawn from a non-empty result or an error path")
 	defer m.Done()
 	n := vk.N(4000, 300000)
 	r := m.Rand("orm")
@@ -1081,6 +1105,12 @@ func TestVerifC11Orm(t *testing.T) {
 		shapes[c.Shape+":"+c.Method+":"+c.Path]++
 		m.Count("fields_compared", int64(st.fields))
 		m.Count("rows_copied", int64(st.rows))
+		if st.prefilled {
+			m.Count("results_copied_into_non_empty_slice", 1)
+		}
+		if c.Prefill > 0 && st.class == "strict:ErrNotMatchDestination" {
+			m.Count("strict_rejections_with_non_empty_slice", 1)
+		}
 		if c.Permuted && (st.class == "row:copied" || st.class == "rows:copied") {
 			m.Count("permuted_column_results_copied", 1)
 		}
@@ -1133,7 +1163,7 @@ type c11StaticTagged struct {
 
 // TestVerifC11OrmStatic: declared struct types, every column permutation.
 func TestVerifC11OrmStatic(t *testing.T) {
-	m := vk.New(t, "C11", "declared types: tagged 5-field struct under all 120 column permutations x {QueryRow, QueryRows []T, []*T} x {strict, partial} (+ one unknown column, + one dropped column); untagged struct with nested embedded pointer under positional columns (full, prefix); non-trivial = values compared")
+	m := vk.New(t, "C11", "declared types: tagged 5-field struct under all 120 column permutations x {QueryRow, QueryRows []T, []*T; slices empty or already holding an earlier page} x {strict, partial} (+ one unknown column, + one dropped column); untagged struct with nested embedded pointer under positional columns (full, prefix); non-trivial = values compared")
 	defer m.Done()
 	c11Setup()
 	at := time.Unix(1_600_000_000, 0).UTC()
@@ -1230,6 +1260,10 @@ func TestVerifC11OrmStatic(t *testing.T) {
 					var one c11StaticTagged
 					var many []c11StaticTagged
 					var manyp []*c11StaticTagged
+					if pi%2 == 1 { // second page of a paging loop: the slices are not empty
+						many = append(many, c11StaticTagged{Name: "earlier"}, c11StaticTagged{Name: "page"})
+						manyp = append(manyp, &c11StaticTagged{Name: "earlier"})
+					}
 					var qerr error
 					pv, panicked := vk.Recover(func() {
 						switch {
@@ -1273,6 +1307,9 @@ func TestVerifC11OrmStatic(t *testing.T) {
 									gots = append(gots, *p)
 								}
 							}
+						}
+						if method != "row" && len(gots) > 2 && pi%2 == 1 {
+							gots = gots[len(gots)-2:] // appended behind the earlier page
 						}
 						if method != "row" && len(gots) != 2 {
 							m.Violate(sig+"row-count", desc, "2 rows, %d elements", len(gots))
